@@ -457,7 +457,7 @@ fn op_width(tag: u64) -> usize {
         15 | 25 => 5,
         18 | 19 | 20 => 6,
         24 => 7,
-        22 | 30 => 1,
+        22 | 30 | 31 => 1,
         _ => usize::MAX,
     }
 }
@@ -561,6 +561,11 @@ async fn run_ops(c: &[u64], mode: Mode) -> Option<(Vec<StepRec>, Vec<u64>)> {
             }
             5 => {
                 if a(3)? > 2 {
+                    return None;
+                }
+            }
+            6 => {
+                if a(2)? > 2 {
                     return None;
                 }
             }
@@ -763,7 +768,7 @@ async fn run_ops(c: &[u64], mode: Mode) -> Option<(Vec<StepRec>, Vec<u64>)> {
                 if let Some((sid, _)) = nth_mod(k, &w.opens) {
                     target = Some(sid as u64);
                     w.opens.retain(|(s, _)| *s != sid);
-                    w.proto.inject_substream_open_failure(sid, unsupported != 0);
+                    w.proto.inject_substream_open_failure_kind(sid, unsupported as usize);
                 }
             }
             7 | 8 | 10 | 11 => {
@@ -854,9 +859,10 @@ async fn run_ops(c: &[u64], mode: Mode) -> Option<(Vec<StepRec>, Vec<u64>)> {
             }
             27 => {
                 // the event loop ends: the user drops the handle / the service's event channel closes
+                // (the response futures die with the loop; their feedback channels are not watched any more)
+                w.feedback.clear();
                 if a(1)? == 0 {
                     w.handle = None;
-                    w.feedback.clear();
                 } else {
                     w.proto.close_service();
                 }
@@ -887,6 +893,20 @@ async fn run_ops(c: &[u64], mode: Mode) -> Option<(Vec<StepRec>, Vec<u64>)> {
                     }
                 }
                 w.opens.clear();
+                tokio::time::advance(Duration::from_millis(2 * TMO_MS + 1)).await;
+            }
+            31 => {
+                // the same, but the connections stay: every unanswered open_substream gets a
+                // SubstreamOpenFailure instead (silent peers must time out)
+                for p in 0..NPEERS {
+                    if w.owed[p] {
+                        w.owed[p] = false;
+                        w.proto.inject_dial_failure(w.peers[p]);
+                    }
+                }
+                for (sid, _) in std::mem::take(&mut w.opens) {
+                    w.proto.inject_substream_open_failure(sid, false);
+                }
                 tokio::time::advance(Duration::from_millis(2 * TMO_MS + 1)).await;
             }
             _ => return None,
@@ -1030,8 +1050,10 @@ fn epilogue(rng: &mut Rng, ops: &mut Vec<Vec<u64>>) {
             ops.push(vec![12, 5100]);
         }
     }
-    if rng.chance(70) {
-        ops.push(vec![30]);
+    match rng.below(10) {
+        0..=4 => ops.push(vec![30]),
+        5..=7 => ops.push(vec![31]),
+        _ => {}
     }
 }
 
@@ -1072,8 +1094,10 @@ fn gen_guided(rng: &mut Rng, thorough: bool) -> Vec<u64> {
     for _ in 0..nops {
         let p = rng.below(npeers as u64) as usize;
         // payloads at and around the maximum are rare when the maximum is large (they cost time)
-        let len = if rng.chance(6) { max_size + 1 } else if max_size > 2000 && rng.chance(80) { rng.pick(&[0u64, 1, 2, 7, 200]) } else { rng.pick(&lens) };
+        let len = if rng.chance(6) { max_size + 1 } else if max_size > 2000 && rng.chance(55) { rng.pick(&[0u64, 1, 2, 7, 200]) } else { rng.pick(&lens) };
         let tag = rng.below(256);
+        // responses (both directions) go up to the maximum more often than requests
+        let rlen = if max_size > 2000 && rng.chance(50) { rng.pick(&[max_size - 1, max_size, max_size]) } else { len };
         let gate = rng.pick(&[1u64, 1, 1, 1, 0, 0, 2]);
         let roll = rng.below(100);
         let op: Vec<u64> = if roll < 22 {
@@ -1132,7 +1156,7 @@ fn gen_guided(rng: &mut Rng, thorough: bool) -> Vec<u64> {
                     _ => vec![21, rng.below(ids + 1), rng.pick(&[5100u64, 2600]), 0],
                 }
             } else {
-                vec![9, rng.pick(&out_chans), len, tag]
+                vec![9, rng.pick(&out_chans), rlen, tag]
             }
         } else if roll < 66 && !blocked.is_empty() {
             let i = rng.below(blocked.len() as u64) as usize;
@@ -1143,7 +1167,7 @@ fn gen_guided(rng: &mut Rng, thorough: bool) -> Vec<u64> {
             vec![12, rng.pick(&[1700u64, 2600, 5100, 300])]
         } else if roll < 76 && opens > 0 {
             opens -= 1;
-            vec![6, rng.below(opens + 1), rng.below(2)]
+            vec![6, rng.below(opens + 1), rng.below(3)]
         } else if roll < 79 {
             if connected[p] {
                 connected[p] = false;
@@ -1176,7 +1200,7 @@ fn gen_guided(rng: &mut Rng, thorough: bool) -> Vec<u64> {
             if rng.chance(10) {
                 vec![25, rng.below(ids + 2), len, tag, rng.below(2)]
             } else {
-                vec![15, rng.below(waiting + 1), len, tag, rng.below(2)]
+                vec![15, rng.below(waiting + 1), rlen, tag, rng.below(2)]
             }
         } else if roll < 98 && waiting > 0 {
             waiting -= 1;
@@ -1217,8 +1241,9 @@ fn gen_case(rng: &mut Rng, thorough: bool) -> Vec<u64> {
     for _ in 0..nops {
         let p = rng.below(npeers);
         let k = rng.below(8);
-        let len = if rng.chance(12) { max_size + 1 } else if max_size > 2000 && rng.chance(80) { rng.pick(&[0u64, 1, 2, 7, 200]) } else { rng.pick(&lens) };
+        let len = if rng.chance(12) { max_size + 1 } else if max_size > 2000 && rng.chance(55) { rng.pick(&[0u64, 1, 2, 7, 200]) } else { rng.pick(&lens) };
         let tag = rng.below(256);
+        let rlen = if max_size > 2000 && rng.chance(50) { rng.pick(&[max_size - 1, max_size, max_size]) } else { len };
         let gate = rng.pick(&[1u64, 1, 1, 0, 0, 2]);
         let roll = rng.below(100);
         // style 0: outbound heavy; 1: dial heavy; 2: inbound heavy; 3: uniform; 4: dial heavy with a
@@ -1250,7 +1275,7 @@ fn gen_case(rng: &mut Rng, thorough: bool) -> Vec<u64> {
             (_, 35..=39) => vec![3, p],
             (_, 40..=43) => vec![4, p],
             (_, 44..=55) => vec![5, k, gate, rng.pick(&[0u64, 0, 0, 1, 2])],
-            (_, 56..=58) => vec![6, k, rng.below(2)],
+            (_, 56..=58) => vec![6, k, rng.below(3)],
             (_, 59..=63) => vec![7, k],
             (_, 64..=65) => vec![8, k],
             (_, 66..=74) => {
@@ -1262,7 +1287,7 @@ fn gen_case(rng: &mut Rng, thorough: bool) -> Vec<u64> {
                         _ => vec![21, rng.below(sent + 1), rng.pick(&[5100u64, 2600]), 0],
                     }
                 } else {
-                    vec![9, k, len, tag]
+                    vec![9, k, rlen, tag]
                 }
             }
             (_, 75..=76) => vec![10, k],
@@ -1273,7 +1298,7 @@ fn gen_case(rng: &mut Rng, thorough: bool) -> Vec<u64> {
                 vec![13, p, gate, rng.pick(&[0u64, 0, 1, 2])]
             }
             (_, 87..=92) => vec![14, k, len, tag],
-            (_, 93..=96) => if rng.chance(15) { vec![25, rng.below(sent + 2), len, tag, rng.below(2)] } else { vec![15, k, len, tag, rng.below(2)] },
+            (_, 93..=96) => if rng.chance(15) { vec![25, rng.below(sent + 2), len, tag, rng.below(2)] } else { vec![15, k, rlen, tag, rng.below(2)] },
             (_, 97..=98) => if rng.chance(25) { vec![26, rng.below(sent + 2)] } else { vec![16, k] },
             _ => match rng.below(8) {
                 0 => vec![22],
